@@ -80,7 +80,9 @@ def run(ctx):
         # as-built switches (SlicesRangeChecked, LoopIndexRangeChecked = FALSE): counterexample programs + model conformance
         wit = [it for it in asbuilt if not it["model"]["agrees"]]
         if not wit:
-            raise MachineryError("vacuous: the as-built configuration produced no counterexample program")
+            # every deviation this property knew about has been fixed in /repo: the as-built switches equal the
+            # intended ones, the former counterexample programs stay in the family as ordinary regression programs
+            ctx.extra["asbuilt_note"] = "no as-built deviation left: as-built cfg = intended cfg"
         conf = {"agree": 0, "rows-differ": 0, "raise-differs": 0, "skipped": 0}
         for it, (kind, detail) in zip(asbuilt, pmap(_conf, asbuilt)):
             conf[kind] += 1
